@@ -93,6 +93,59 @@ func HarnessDamage() {
 		} else {
 			zz.Assert(err != nil && db2 == nil, "damage/truncated-open-fails")
 		}
+	case 4:
+		// partial overwrite of the older meta by a would-be newer one: the next commit's data pages are
+		// on disk, its meta write is torn at byte k (either part first)
+		metaAt := func(b []byte, slot int) []byte { return zzClone(b[slot*c.pageSize+16 : slot*c.pageSize+16+64]) }
+		f0 := zz.FileBytes(path)
+		old := 1 - im.cur
+		a := metaAt(f0, old)
+		db1 := zzMustOpen(path, c, "damage/reopen-for-next-commit")
+		err := db1.Update(func(tx *Tx) error {
+			return tx.Bucket([]byte("b")).Put([]byte("k07"), zzVal(c.pageSize*3/10, 'E'))
+		})
+		zz.Assert(err == nil, "damage/next-commit")
+		next := zzViewDump(db1, "damage/next")
+		zz.Assert(db1.Close() == nil, "damage/close-after-next")
+		f1 := zz.FileBytes(path)
+		n := metaAt(f1, old)
+		zz.Assert(zzReadMeta(f1, old*c.pageSize).ok && zzReadMeta(f1, old*c.pageSize).txid == im.m.txid+1, "damage/next-meta-went-to-the-older-slot")
+		k := 1 + zz.Choose(63)
+		mix := make([]byte, 64)
+		if zz.Choose(2) == 0 {
+			copy(mix, n[:k])
+			copy(mix[k:], a[k:])
+		} else {
+			copy(mix, a[:k])
+			copy(mix[k:], n[k:])
+		}
+		for i := 0; i < 64; i++ {
+			zz.PokeFile(path, int64(old)*ps+16+int64(i), mix[i])
+		}
+		mm := zzReadMeta(zz.FileBytes(path), old*c.pageSize)
+		db2, err, p := zzOpenCatch(path, o)
+		zz.Assert(!p, "damage/torn-meta-open-does-not-panic")
+		zz.Assert(err == nil, "damage/torn-meta-open-succeeds")
+		if err != nil || p {
+			return
+		}
+		got := zzViewDump(db2, "damage/torn-reopened")
+		if mm.ok && mm.txid > im.m.txid {
+			zz.Reach("torn-meta-complete") // every differing byte already arrived: the commit is simply there
+			zz.Assert(zzSameKVs(got, next), "damage/complete-new-meta-presents-new-state")
+		} else {
+			zz.Reach("torn-meta-rejected")
+			zz.Assert(zzSameKVs(got, newest), "damage/torn-meta-presents-last-committed-state")
+		}
+		cnt := 0
+		_ = db2.View(func(tx *Tx) error {
+			for range tx.Check() {
+				cnt++
+			}
+			return nil
+		})
+		zz.Assert(cnt == 0, "damage/torn-meta-Check-silent")
+		zz.Assert(db2.Close() == nil, "damage/close3")
 	}
 	zz.Reach("done")
 }
